@@ -170,7 +170,30 @@ def collect_mapping_cases(n, seed):
         got.append(c)
 
     collect()
-    return got
+    return got + canonical_conflict_cases(seed)
+
+
+def canonical_conflict_cases(seed):
+    """pair lists in which one G is given two (three) canonical partners of one class - the conflict whose resolution
+    must not depend on anything but the list: constructed from the letters of corpus structures, in both entry orders"""
+    from rnaverif import corpus
+
+    out = []
+    for k, fn in enumerate(["1E7K_1_C.cif", "1DFU_1_M-N.cif", "1HMH_1_E.cif"]):
+        if not os.path.exists(os.path.join(REPO, "tests", fn)):
+            continue
+        nts = [r for r in corpus.structure(fn).residues if r.is_nucleotide]
+        gs = [i for i, r in enumerate(nts) if r.one_letter_name == "G"]
+        cs = [i for i, r in enumerate(nts) if r.one_letter_name in ("C", "U")]
+        if not gs or len(cs) < 2:
+            continue
+        h = gs[(seed + k) % len(gs)]
+        partners = [cs[(seed + k + j * 3) % len(cs)] for j in range(3)]
+        partners = [p for i, p in enumerate(partners) if p not in partners[:i]]
+        entries = [{"r1": h, "r2": p, "lw": "cWW", "dup": None} for p in partners]
+        for order in (entries, entries[::-1]):
+            out.append({"file": fn, "entries": [dict(e) for e in order], "find_gaps": False, "via_adapter": bool((seed + k) % 2), "saenger": True, "naming": None})
+    return out
 
 
 VARIANT_FILES = ["1ATO.pdb", "1HMH_1_E.cif", "1E7K_1_C.cif", "1A1T_1_B.cif", "4WTI_1_T-P.cif", "1DFU_1_M-N.cif"]
